@@ -260,6 +260,9 @@ func (g *G) randAtom(countOnly bool) Atom {
 				a.Vals = append(a.Vals, s)
 			}
 		}
+		if len(a.Vals) > 0 && g.coin(0.15) {
+			a.Vals = append(a.Vals, a.Vals[g.n(len(a.Vals))]) // a value listed twice means what it means listed once
+		}
 	case "minInclusive", "minExclusive", "maxInclusive", "maxExclusive":
 		a.Arg = i64p(g.intValue())
 	case "lessThanProperty", "lessThanOrEqualsToProperty", "equalsToProperty", "disjointWithProperty", "moreThanProperty", "moreThanOrEqualsToProperty":
@@ -321,6 +324,16 @@ func genC01Atoms(g *G, id int) C01Case {
 			Validation{Name: fmt.Sprintf("n%d", j), Class: NS + "T", Rule: Rule{Not: &Rule{Atom: ip(j)}}})
 	}
 	c.Graph = g.graph(3+g.n(5), 0.45)
+	if id%7 == 3 {
+		// list constraints whose list names a value twice, or one scalar in two spellings
+		p0 := PP(g.pick(propPool), false)
+		lists := [][]string{{"cc", "ddd", "cc"}, {"1", "true", "1", "true"}, {"a", "a"}, {"b", "cc", "b", "ddd", "cc"}}
+		for k, kind := range []string{"containsSome", "containsAll"} {
+			if k < len(c.Atoms) {
+				c.Atoms[k] = Atom{Kind: kind, Path: p0, Vals: lists[g.n(len(lists))]}
+			}
+		}
+	}
 	if bigInts {
 		// numeric constraints and comparisons over the big values: make sure some atoms are numeric
 		p0, p1 := PP(g.pick(propPool), false), PP(g.pick(propPool), false)
